@@ -1,10 +1,51 @@
 (* Props/C12.v — diff: a spec never differs from itself, and diff never crashes.
    Statements only, each closed by [exact lemma]; proofs are in Tools/DiffModelLemmas.v.
-   PARTIAL: the theorems below cover every comparison function of the analyser (value, type, reference,
-   property-flag, parameter-schema, metadata and endpoint level) for all inputs; the composition into
-   "analyse fuel A A = Ok []" over the recursive schema walk is exercised by the harness (identity pairs,
-   projection PTotal/PFull), see DESIGN.md 5.12. *)
-From GS Require Import Base.Str Gen.GenDiffTables Tools.DiffTypes Tools.DiffSpec Tools.DiffModel Tools.DiffModelLemmas.
+   C12_identity is the whole-document statement on the model: for every document whose JSON objects have distinct
+   keys (paths x methods, property names at any depth, parameter and header names, response codes, definition names)
+   and for every amount of fuel, if the analysis of A against itself returns, it returns no difference — through
+   references, allOf, items, the visited marks and the bookkeeping of referenced definitions (Tools/DiffIdentity.v).
+   The theorems after it cover every comparison function for all inputs.
+   PARTIAL: totality (diff never panics) is proved for the parameter level (C12_compare_simple_refl) and decided on the
+   implementation otherwise (worker processes: panic, fatal stack overflow, hang); the model's Panic outcomes mark the
+   inputs the real code dereferences nil on (missing definition, array without items). *)
+From GS Require Import Base.Str Gen.GenDiffTables Tools.DiffTypes Tools.DiffSpec Tools.DiffModel Tools.DiffModelLemmas Tools.DiffIdentity.
+
+Theorem C12_identity : forall fuel a ds, wf_swaggerb a = true -> analyse fuel a a = Ok ds -> ds = [].
+Proof. exact analyse_identity. Qed.
+Print Assumptions C12_identity.
+
+Theorem C12_schema_identity : forall d, wf_defs d -> forall fuel l x sta ds sta',
+  wfb x = true -> compare_schema fuel d d l x x sta = Ok (ds, sta') -> ds = [].
+Proof. exact compare_schema_refl. Qed.
+Print Assumptions C12_schema_identity.
+
+(* non-vacuity: a document with a recursive definition, allOf, an array of references, a body and a query parameter,
+   two responses with a header — well-formed, and the analysis against itself returns (nothing) *)
+Definition str_schema : schema := Schema [] [s "string"] [] [] no_vals None [] [] [].
+Definition ref_to (n : str) : schema := Schema n [] [] [] no_vals None [] [] [].
+Definition pet : schema :=
+  Schema [] [s "object"] [] (s "a pet") no_vals None
+    [(s "name", str_schema); (s "friends", Schema [] [s "array"] [] [] no_vals (Some (ref_to (s "Pet"))) [] [] []); (s "owner", ref_to (s "Owner"))]
+    [s "name"] [].
+Definition owner : schema :=
+  Schema [] [] [] [] no_vals None [] [] [ref_to (s "Named"); Schema [] [s "object"] [] [] no_vals None [(s "pets", Schema [] [s "array"] [] [] no_vals (Some (ref_to (s "Pet"))) [] [] [])] [] []].
+Definition named : schema := Schema [] [s "object"] [] [] no_vals None [(s "name", str_schema)] [] [].
+Definition q_limit : param :=
+  {| p_name := s "limit"; p_in := s "query"; p_required := false; p_desc := []; p_schema := None;
+     p_simple := Simple (s "integer") (s "int32") [] false DNone DNone no_vals None |}.
+Definition b_pet : param :=
+  {| p_name := s "body"; p_in := s "body"; p_required := true; p_desc := []; p_schema := Some (ref_to (s "Pet"));
+     p_simple := Simple [] [] [] false DNone DNone no_vals None |}.
+Definition sample_doc : swagger :=
+  {| sw_consumes := Some [s "application/json"]; sw_produces := None; sw_schemes := None; sw_host := []; sw_basepath := s "/api"; sw_info_desc := [];
+     sw_paths := [(s "/pets", {| pi_params := [q_limit];
+                                 pi_ops := [(s "post", {| o_tags := Some [s "pets"]; o_desc := []; o_deprecated := false; o_params := [b_pet];
+                                                          o_responses := [(200%Z, {| r_desc := s "ok"; r_schema := Some (ref_to (s "Pet"));
+                                                                                     r_headers := [(s "X-Total", Simple (s "integer") [] [] false DNone DNone no_vals None)] |});
+                                                                          (404%Z, {| r_desc := s "none"; r_schema := None; r_headers := [] |})] |})] |})];
+     sw_defs := [(s "Pet", pet); (s "Owner", owner); (s "Named", named)] |}.
+Example C12_identity_nonvacuous : wf_swaggerb sample_doc = true /\ analyse 12 sample_doc sample_doc = Ok [].
+Proof. split; vm_compute; reflexivity. Qed.
 
 Theorem C12_compare_props_refl : forall x, compare_props x x = Ok [].
 Proof. exact compare_props_refl. Qed.
